@@ -1,7 +1,3 @@
-// Package vpg is a small interpreter for the PL/pgSQL + SQL expression subset
-// emitted by gomacro's generator/sql (jsonb validation functions and the CHECK
-// constraints calling them), with PostgreSQL's three-valued logic and error
-// behaviour. See doc.go for the accepted grammar and the assumptions made.
 package vpg
 
 import (
@@ -17,7 +13,6 @@ const (
 	tString // 'single quoted' literal; s is the decoded content
 	tNum    // integer literal; s is the digits
 	tOp     // operator or punctuation
-	tDollar // $$ dollar quoted $$ string; s is the content
 )
 
 type token struct {
@@ -153,16 +148,6 @@ func lex(src string) ([]token, error) {
 				return nil, err
 			}
 			out = append(out, token{tString, s, i})
-			i = j
-		case c == '$':
-			s, j, ok, err := scanDollar(src, i)
-			if err != nil {
-				return nil, err
-			}
-			if !ok {
-				return nil, fmt.Errorf("unsupported token at offset %d: %s", i, excerpt(src[i:]))
-			}
-			out = append(out, token{tDollar, s, i})
 			i = j
 		default:
 			found := false
